@@ -22,6 +22,7 @@
 (*    the dictionary of the encoder, on ImplEncoder).  EqMode = "uri"      *)
 (*    (history/MC_Encoding_eq_uri.cfg): an equality that identifies terms  *)
 (*    by URI while the hash stays on the name -- refuted on the pairs.     *)
+(*    KeyMode = "json_text" (history/MC_Encoding_key_json_text.cfg).       *)
 (*    DecodeMode = "redump" (history/MC_Encoding_decode_redump.cfg).       *)
 (*    HashMode = "note_iso" (history/MC_Encoding_hash_note_iso.cfg), KeyMode*)
 (*    = "declared_fields" (history/MC_Encoding_key_declared_fields.cfg).   *)
@@ -63,7 +64,8 @@ PartnerProvs(px) == (IF WideProv THEN {Fresh, Prov("deep_copy", 0), Prov("revali
                      ELSE IF HasExtras(px.mode) THEN {Fresh, px} ELSE {Fresh}) \cup
                     (IF px = ExtrasAB THEN {ExtrasBA} ELSE IF px = ExtrasBA THEN {ExtrasAB} ELSE {})
 
-Key(u) == CASE KeyMode = "term_value"  -> <<UTag[u][1], UTag[u][2]>>
+Key(u) == CASE KeyMode = "term_value"  -> <<TermRep[UTag[u][1]], UTag[u][2]>>     \* the term itself: equal terms, equal keys
+            [] KeyMode = "json_text"   -> <<TermJson[UTag[u][1]], UTag[u][2]>>    \* control: the canonical JSON text
             [] KeyMode = "name_value"  -> <<TermName[UTag[u][1]], UTag[u][2]>>
             [] KeyMode = "label_value" -> <<TermLabel[UTag[u][1]], UTag[u][2]>>
             [] KeyMode = "value"       -> <<UTag[u][2]>>
@@ -82,6 +84,8 @@ Init == /\ \/ \E v \in Vocabs, ts \in TagLists : (Len(v) < MaxVocab \/ Len(ts) <
            \/ \E v \in {w \in SeqsUpTo(WsTags, 2) : Injective(w)}, ts \in SeqsUpTo(WsTags, 2) : c = EncCase(v, ts)
            \* tags on terms that differ only in an extra attribute (absent / draft / final) are different tags
            \/ \E v \in {w \in SeqsUpTo(XTags, 2) : Injective(w)}, ts \in SeqsUpTo(XTags, 2) : c = EncCase(v, ts)
+           \* extra attributes with loosely typed values: one tag written 1 / 1.0 / True, two tags with one JSON text
+           \/ \E v \in {w \in SeqsUpTo(LooseTags, 2) : Injective(w)}, ts \in SeqsUpTo(LooseTags, 1) : c = EncCase(v, ts)
            \* tags on terms with every optional field set, the aliased ones (type, range) away from their defaults
            \/ \E v \in {w \in SeqsUpTo(FullTags, 2) : Injective(w)}, ts \in SeqsUpTo(FullTags, 1) : c = EncCase(v, ts)
            \/ \E v \in Vocabs, ts \in TagLists : \E vp \in Written, qp \in Written :
@@ -132,7 +136,8 @@ IsEnc == c.kind = "enc"
 \* what decode(k - 1) hands out, as <<term, value>> (term 0 = none of the universe)
 DecodeImpl(k) == LET u == c.vocab[k] IN
                  IF DecodeMode = "redump" THEN <<Redumped[UTag[u][1]], UTag[u][2]>> ELSE UTag[u]
-ImplDecode   == (IsEnc /\ pc # "build") => \A k \in DOMAIN c.vocab : DecodeImpl(k) = UTag[c.vocab[k]]
+ImplDecode   == (IsEnc /\ pc # "build") => \A k \in DOMAIN c.vocab :
+                   DecodeImpl(k)[1] # 0 /\ TermRep[DecodeImpl(k)[1]] = TermRep[UTag[c.vocab[k]][1]] /\ DecodeImpl(k)[2] = UTag[c.vocab[k]][2]
 ImplEncoder  == (IsEnc /\ pc # "build") => \A u \in 1..NU : Lookup(u) = Encode(c.vocab, u)
 ImplClassify == (IsEnc /\ pc \in {"multi", "pred", "done"}) => cls = Classify(c.vocab, c.tags)
 ImplMulti    == (IsEnc /\ pc \in {"pred", "done"}) => multi = Multilabel(c.vocab, c.tags)
